@@ -67,6 +67,11 @@ CHECKS["C20"] = dict(engine="text-rag",
   text="TLC exhaustively enumerates every (text <= 5/7 symbols, strategy, size 1..5, overlap 0..size+1) case, every token-kind sequence x language tag, and every chunk graph on 2-4 nodes x seeds x depth x cap x budget, checking no-loss, the size+overlap bound, negation/connective preservation, budget, depth, cap and termination; every enumerated case is executed on the real code.",
   note="Tiny alphabet; nothing is claimed about other characters or longer texts except through the exploration part (reported separately in the evidence, not model checking). Stemmers covered by run-twice determinism + exploration only. Built by a sub-agent.", ref="6 C20")
 
+CHECKS["C02"] = dict(engine="kektor-engine",
+  technique="TLC on Crash.tla (Kektor.tla + process-death model: crash between calls with any flushed prefix of the log, between the phases of SaveSnapshot/RewriteAOF; Inv_CrashAdmissible, Inv_FixedPoint) + spec-driven fault enumeration on the real engine: directory images at hook points (journal write of the last call, between calls, torn last frame at byte offsets, snap.*/rw.* phase boundaries), each opened and compared with the admissible projections computed by the spec, then second Open and write+restart",
+  text="TLC checks in every reachable state that what the next Open would read after a crash at each modelled point gives every item a value it held since its last durable write, and that reopening is a fixed point. For every sampled pre-crash state TLC emits the history and the admissible outcome per crash point; the replayer takes real crash images at the hook points and checks Open succeeds, membership, fixed point and no further loss.",
+  note="Process-death model (page cache survives). Crash points inside VDeleteIndex, VImportCommit, Compress and a second crash during recovery are not enumerated yet. Known finding KF-C02-1 carried as a named deviation.", ref="6 C02", level="model_checking")
+
 NOT_YET = {}
 
 def main():
@@ -103,7 +108,7 @@ def main():
             {"name": "text-rag", "path": "spec/Split.tla + spec/Compress.tla + spec/Adaptive.tla + tools/check_C20.py + harness/cmd/c20", "serves_properties": ["C20"], "kind_free_text": "TLA+ transcriptions of splitter/compressor/retriever, every case executed on the real code"},
             {"name": "decay", "path": "spec/Decay.tla + tools/check_C15.py + harness/cmd/c15decay", "serves_properties": ["C15"], "kind_free_text": "TLA+ case analysis, one implementation test per TLC state"},
             {"name": "http-conformance", "path": "spec/Http.tla + tools/check_C19.py + harness/cmd/vhttp", "serves_properties": ["C19"], "kind_free_text": "TLA+ request/FS model, cases replayed on the real server"},
-            {"name": "kektor-engine", "path": "spec/Kektor.tla + tools/engine_checks.py + harness/internal/eng", "serves_properties": ["C01", "C04", "C05", "C10", "C12"],
+            {"name": "kektor-engine", "path": "spec/Kektor.tla + tools/engine_checks.py + harness/internal/eng", "serves_properties": ["C01", "C02", "C04", "C05", "C10", "C12"],
              "kind_free_text": "TLA+ spec of the engine (volatile + durable state), TLC exhaustive check, TLC-generated behaviours replayed on the real engine"},
         ],
         "checks": checks,
